@@ -1,24 +1,105 @@
-/* execsig_harness.c -- C20, forwarding at the module level: the REAL src/modules/execcmd.c (static execcmd /
- * exec_signal, reached through the exported operations table exactly as rcmd.c reaches them) and the real
- * src/common/pipecmd.c on real children.
+/* execsig_harness.c -- C20, forwarding at the module level, the PROCESS side: the REAL src/modules/execcmd.c (static
+ * execcmd / exec_signal, reached through the exported operations table exactly as rcmd.c reaches them) and the real
+ * src/common/pipecmd.c (included below, so that the calls its forked child makes can be stopped at) on real children.
  *
  * dsh.c's _fwd_signal() calls rcmd_signal(t[i].rcmd, signum) = (*rmod->signal)(rcmd->efd, rcmd->arg, signum) for every
- * READING target.  rcmd->efd is -1 when pdsh runs without -s (no stderr fd was asked for) and becomes -1 again as
- * soon as the command's stderr reaches EOF (_handle_rcmd_stderr).  "Forward the signal to every command still
- * running" therefore means: the module must deliver the signal whatever the value of efd.
+ * READING target.  Two facts of dsh.c decide what "forward the signal to every command still running" asks of the module:
+ *   (a) rcmd->efd is -1 when pdsh runs without -s and becomes -1 again as soon as the command's stderr reaches EOF:
+ *       the module must deliver the signal whatever the value of efd               (scenarios sopt-open ... no-sopt);
+ *   (b) a host is DSH_READING as soon as rcmd_connect() has returned, i.e. right after fork() in the parent: the child
+ *       may be ANYWHERE between fork() and the first instruction of the command.  The signal must ARRIVE at the
+ *       command wherever the child is: before/after its dup2()s, inside closeall(), before setsid() (its process group
+ *       is still pdsh's), after setsid() (own session and group), before execvp()      (scenarios pt<k>:<call>[:s]).
  *
- *   usage: execsig_harness      one line per scenario:  <name> delivered=<0|1> wait=<raw status>
+ * For (b) every libc call pipecmd.c's child makes between fork() and exec is numbered (macros below; only the child of
+ * the fork counts); in scenario k the child stops itself (raise(SIGSTOP)) just before its k-th call, the parent waits for the
+ * stop (waitpid WUNTRACED: no sleeping), calls the module's signal function, and continues the child.  As in pdsh
+ * SIGINT/SIGTSTP are blocked in the caller (dsh.c:_mask_signals) and so in the child: a signal sent before exec stays
+ * pending across exec.  The command is harness/sig_helper.c: it installs a handler, unblocks, and exits 130 when the
+ * handler has run -- the arrival is observed IN THE COMMAND, not at the sender.  A signal that was sent before exec is
+ * delivered at the helper's sigprocmask() or never, so an undelivered signal shows as exit 0 after the helper's short sleep.
  *
- * Each child is `sh -c "<prefix> exec sleep 3"`: if the signal is not delivered the wait ends after 3 s with exit 0. */
+ *   usage: execsig_harness <sig_helper>     one line per scenario:  <name> delivered=<0|1> sigf=<rc> wait=<raw status>
+ *
+ * (a): each child is `sh -c "<prefix> exec sleep 3"`: if the signal is not delivered the wait ends after 3 s with exit 0. */
 #include "src/modules/execcmd.c"
 
 #include <stdio.h>
 #include <stdlib.h>
 #include <signal.h>
+#include <string.h>
+#include <unistd.h>
+#include <fcntl.h>
+#include <sys/mman.h>
+#include <sys/resource.h>
+#include <sys/wait.h>
+
+/* ---- the calls of pipecmd.c's forked child, numbered ---- */
+#define MAXCALLS 400
+static struct shared {
+    volatile int ncalls;
+    char name[MAXCALLS][12];
+} *sh;
+static int in_child, stop_at;
+
+static void point(const char *name)
+{
+    int k;
+    if (!in_child || !sh)
+        return;
+    k = ++sh->ncalls;
+    if (k <= MAXCALLS)
+        strncpy(sh->name[k - 1], name, sizeof sh->name[0] - 1);
+    if (k == stop_at)
+        raise(SIGSTOP);
+}
+
+static pid_t h_fork(void) { pid_t p = fork(); if (p == 0) in_child = 1; return p; }
+static pid_t h_vfork(void) { return h_fork(); }
+static int h_close(int fd) { point("close"); return close(fd); }
+static int h_dup2(int a, int b) { point("dup2"); return dup2(a, b); }
+static int h_dup(int a) { point("dup"); return dup(a); }
+static pid_t h_setsid(void) { point("setsid"); return setsid(); }
+static int h_setpgid(pid_t a, pid_t b) { point("setpgid"); return setpgid(a, b); }
+static int h_setpgrp(void) { point("setpgrp"); return setpgid(0, 0); }
+static long h_sysconf(int n) { point("sysconf"); return sysconf(n); }
+static int h_execvp(const char *f, char *const a[]) { point("execvp"); return execvp(f, a); }
+static int h_execv(const char *f, char *const a[]) { point("execv"); return execv(f, a); }
+static int h_execve(const char *f, char *const a[], char *const e[]) { point("execve"); return execve(f, a, e); }
+static int h_chdir(const char *d) { point("chdir"); return chdir(d); }
+
+#define fork h_fork
+#define vfork h_vfork
+#define close h_close
+#define dup2 h_dup2
+#define dup h_dup
+#define setsid h_setsid
+#define setpgid h_setpgid
+#define setpgrp h_setpgrp
+#define sysconf h_sysconf
+#define execvp h_execvp
+#define execv h_execv
+#define execve h_execve
+#define chdir h_chdir
+#include "src/common/pipecmd.c"
+#undef fork
+#undef vfork
+#undef close
+#undef dup2
+#undef dup
+#undef setsid
+#undef setpgid
+#undef setpgrp
+#undef sysconf
+#undef execvp
+#undef execv
+#undef execve
+#undef chdir
 
 /* referenced by execcmd.c */
 int rcmd_opt_set(int id, void *value) { (void) id; (void) value; return 0; }
-const char **pdsh_remote_argv(void) { return NULL; }
+static const char **remote_argv;
+const char **pdsh_remote_argv(void) { return remote_argv; }
 
 static void scenario(const char *name, const char *cmd, int want_fd2, int efd_after)
 {
@@ -40,14 +121,131 @@ static void scenario(const char *name, const char *cmd, int want_fd2, int efd_af
     fflush(stdout);
 }
 
-int main(void)
+/* one run of the module's execcmd with the child stopping before its k-th call (k = 0: never); the signal is sent while
+ * it is stopped.  -> number of calls the child made before exec, or -1 */
+static int at_point(int k, int want_fd2, const char *helper)
 {
-    sigset_t none;
+    const char *av[] = { helper, "/dev/null", "t", "0.4", NULL };
+    int efd = -1, fd, status = 0, rc = 0, st, delivered, self = 0;
+    void *arg = NULL;
+    pid_t pid;
+    sigset_t pend;
+    struct timespec zero = { 0, 0 };
+    char name[48];
+    RcmdSigF sigf = execcmd_rcmd_ops.rcmd_signal;
+    sh->ncalls = 0;
+    stop_at = k;
+    remote_argv = av;
+    fd = execcmd("h0", NULL, "user", "user", "unused", 0, want_fd2 ? &efd : NULL, &arg);
+    remote_argv = NULL;
+    if (fd < 0 || arg == NULL) {
+        printf("pt%d%s start-failed\n", k, want_fd2 ? ":s" : "");
+        return -1;
+    }
+    pid = ((pipecmd_t) arg)->pid;
+    if (k > 0) {
+        /* the child stops itself before its k-th call -- or never gets there (k beyond its last call) */
+        if (waitpid(pid, &st, WUNTRACED) != pid || !WIFSTOPPED(st)) {
+            printf("pt%d%s start-failed: child did not stop (status %d)\n", k, want_fd2 ? ":s" : "", st);
+            return -1;
+        }
+        if (!want_fd2)
+            efd = -1;
+        rc = (*sigf) (efd, arg, SIGINT);
+        /* did the "forwarded" signal hit the sender (a signal to the group the child is still in: pdsh's own)? */
+        sigpending(&pend);
+        self = sigismember(&pend, SIGINT);
+        if (self) {
+            sigemptyset(&pend);
+            sigaddset(&pend, SIGINT);
+            sigtimedwait(&pend, NULL, &zero);
+        }
+        kill(pid, SIGCONT);
+    }
+    if (pipecmd_wait((pipecmd_t) arg, &status) < 0)
+        status = -1;
+    if (k > 0) {
+        /* sig_helper: exit 130 = its SIGINT handler ran; killed by SIGINT = the signal arrived before the helper existed */
+        delivered = (WIFEXITED(status) && WEXITSTATUS(status) == 130) || (WIFSIGNALED(status) && WTERMSIG(status) == SIGINT);
+        snprintf(name, sizeof name, "pt%d:%s%s", k, k <= MAXCALLS ? sh->name[k - 1] : "?", want_fd2 ? ":s" : "");
+        printf("%s delivered=%d sigf=%d wait=%d self=%d\n", name, delivered, rc, status, self);
+        fflush(stdout);
+    }
+    close(fd);
+    if (((pipecmd_t) arg)->efd >= 0)        /* _pipecmd always makes the second socketpair */
+        close(((pipecmd_t) arg)->efd);
+    pipecmd_destroy((pipecmd_t) arg);
+    return sh->ncalls;
+}
+
+/* (c) an ORDINARY command (one that does not touch its signal mask: sleep, ssh, ...) started while the caller blocks
+ * SIGINT/SIGTSTP/SIGCHLD as every thread of pdsh does (dsh.c:_mask_signals): the mask is inherited across fork and exec
+ * unless _pipecmd's child resets it, and then the forwarded SIGINT stays pending in the command for ever.  No sleeping:
+ * a signal sent before exec is pending across exec; the outcome is decided when the child has exec'd: it dies of SIGINT,
+ * or /proc shows SIGINT blocked in the command (Linux; elsewhere: when it has not died within 2 s). */
+static int blocked_in(pid_t pid)
+{
+    char path[64], line[256], comm[64] = "";
+    unsigned long long blk = 0;
+    FILE *f;
+    snprintf(path, sizeof path, "/proc/%d/status", (int) pid);
+    if (!(f = fopen(path, "r")))
+        return 0;
+    while (fgets(line, sizeof line, f)) {
+        sscanf(line, "Name: %63s", comm);
+        sscanf(line, "SigBlk: %llx", &blk);
+    }
+    fclose(f);
+    return strcmp(comm, "sleep") == 0 && (blk & (1ULL << (SIGINT - 1)));
+}
+
+static void ordinary_command(void)
+{
+    const char *av[] = { "sleep", "3", NULL };
+    int fd, status = 0, rc, i, delivered = 0, decided = 0;
+    void *arg = NULL;
+    pid_t pid;
+    RcmdSigF sigf = execcmd_rcmd_ops.rcmd_signal;
+    remote_argv = av;
+    fd = execcmd("h0", NULL, "user", "user", "unused", 0, NULL, &arg);
+    remote_argv = NULL;
+    if (fd < 0 || arg == NULL) {
+        printf("ordinary-command start-failed\n");
+        return;
+    }
+    pid = ((pipecmd_t) arg)->pid;
+    rc = (*sigf) (-1, arg, SIGINT);
+    for (i = 0; i < 200 && !decided; i++) {
+        if (waitpid(pid, &status, WNOHANG) == pid) {
+            delivered = WIFSIGNALED(status) && WTERMSIG(status) == SIGINT;
+            decided = 1;
+        } else if (blocked_in(pid))
+            break;
+        else
+            usleep(10000);
+    }
+    if (!decided) {
+        kill(pid, SIGKILL);
+        waitpid(pid, &status, 0);
+    }
+    printf("ordinary-command delivered=%d sigf=%d wait=%d\n", delivered, rc, status);
+    fflush(stdout);
+}
+
+int main(int argc, char **argv)
+{
+    sigset_t none, blk;
+    struct rlimit rl;
+    int k, n, s;
     /* a check started from a background job inherits SIGINT ignored (and possibly blocked); the children would
      * inherit that across exec and the delivered signal would have no effect: start from the default state */
     signal(SIGINT, SIG_DFL);
     sigemptyset(&none);
     sigprocmask(SIG_SETMASK, &none, NULL);
+    /* a process group of our own: a module that signals "the group of the child" before the child has left ours must
+     * not interrupt the check that started us */
+    if (setsid() < 0)
+        setpgid(0, 0);
     err_init("execsig");
     /* -s: stderr fd handed out and still open */
     scenario("sopt-open", "exec sleep 3", 1, 0);
@@ -55,5 +253,32 @@ int main(void)
     scenario("sopt-stderr-closed", "exec 2>&-; exec sleep 3", 1, -1);
     /* without -s: no stderr fd was ever asked for, efd is -1 from the start */
     scenario("no-sopt", "exec sleep 3", 0, -1);
+
+    if (argc < 2)
+        return 0;
+    /* (b) a signal at every point between fork() and exec.  closeall() makes one close() per possible descriptor:
+     * keep that loop short */
+    rl.rlim_cur = rl.rlim_max = 16;
+    setrlimit(RLIMIT_NOFILE, &rl);
+    sh = mmap(NULL, sizeof *sh, PROT_READ | PROT_WRITE, MAP_SHARED | MAP_ANONYMOUS, -1, 0);
+    if (sh == MAP_FAILED)
+        return 3;
+    /* as dsh() leaves every thread of pdsh before it starts a command */
+    sigemptyset(&blk);
+    sigaddset(&blk, SIGINT);
+    sigaddset(&blk, SIGTSTP);
+    sigprocmask(SIG_BLOCK, &blk, NULL);
+    sigaddset(&blk, SIGCHLD);
+    sigprocmask(SIG_BLOCK, &blk, NULL);
+    ordinary_command();
+    sigemptyset(&blk);
+    sigaddset(&blk, SIGCHLD);
+    sigprocmask(SIG_UNBLOCK, &blk, NULL);
+    for (s = 0; s <= 1; s++) {
+        n = at_point(0, s, argv[1]);
+        printf("calls%s %d\n", s ? ":s" : "", n);
+        for (k = 1; k <= n && k <= MAXCALLS; k++)
+            at_point(k, s, argv[1]);
+    }
     return 0;
 }
